@@ -729,15 +729,19 @@ static ares_bool_t ares_servers_remove_stale(ares_channel_t *channel,
   ares_slist_node_t *snode         = ares_slist_node_first(channel->servers);
 
   while (snode != NULL) {
-    ares_slist_node_t   *snext  = ares_slist_node_next(snode);
     const ares_server_t *server = ares_slist_node_val(snode);
     if (!ares_server_in_newconfig(server, srvlist)) {
       /* This will clean up all server state via the destruction callback and
        * move any queries to new servers */
       ares_slist_node_destroy(snode);
       stale_removed = ARES_TRUE;
+      /* Moving the queries can fail on other servers, which changes their
+       * failure counts and thereby re-orders this list: a node remembered
+       * from before may now skip a stale server.  Start over. */
+      snode = ares_slist_node_first(channel->servers);
+      continue;
     }
-    snode = snext;
+    snode = ares_slist_node_next(snode);
   }
   return stale_removed;
 }
